@@ -39,6 +39,9 @@ class Leaf(nn.Module):
 
 
 class Root(nn.Module):
+    in_if = False   # set per history: every child is called inside the then-branch of an If (a subgraph built by a sub-builder)
+    cond = None
+
     def __init__(self, name=None, own=False):
         super().__init__(name)
         # a parameter of the root itself, with the same attribute name as the leaves' (realised before theirs)
@@ -49,8 +52,21 @@ class Root(nn.Module):
     def forward(self, op, x):
         if self._own:
             x = op.Mul(x, self.weight)
-        for _, child in self.named_children():
-            x = run(child, op, x)
+        for cname, child in self.named_children():
+            if self.in_if:
+                gb = op.builder
+                src = x
+
+                def branch(fn, nm):
+                    o = ir.Value(name=nm, type=ir.TensorType(DT.FLOAT), shape=ir.Shape([2]))
+                    return gb.subgraph(fn, inputs=[], outputs=[o], name=nm)
+                def then_fn(op2, child=child, src=src):
+                    r_ = run(child, op2, src)
+                    return op2.Identity(src) if r_ is src else r_   # a branch cannot return an outer value itself
+                x = op.If(self.cond, then_branch=branch(then_fn, f"then_{cname}"),
+                          else_branch=branch(lambda op2, src=src: op2.Identity(src), f"else_{cname}"))
+            else:
+                x = run(child, op, x)
         return x
 
 
@@ -67,12 +83,13 @@ def run(m, op, x):
 ROOT_MODES = ["named_at_construction", "named_at_the_end", "unnamed"]
 
 
-def history(steps, named_first, root_own: bool = False):
+def history(steps, named_first, root_own: bool = False, in_if: bool = False):
     """Execute one concrete construction history; returns (ok, detail).  named_first: bool (legacy) or index into ROOT_MODES."""
     mode = ROOT_MODES[(0 if named_first else 1) if isinstance(named_first, bool) else named_first]
     named_first = mode == "named_at_construction"
     prefix = "" if mode == "unnamed" else "model."
     root = Root("model" if named_first else None, root_own)
+    root.in_if = bool(in_if)
     detached: list = []
     attached: list = []
     n_attr = 0
@@ -127,6 +144,9 @@ def history(steps, named_first, root_own: bool = False):
     g = ir.Graph(name="g", inputs=[], outputs=[], nodes=[], opset_imports={"": 18})
     x = ir.Value(name="x", type=ir.TensorType(DT.FLOAT), shape=ir.Shape([2]))
     g.inputs.append(x)
+    if in_if:
+        root.cond = ir.Value(name="c", type=ir.TensorType(DT.BOOL), shape=ir.Shape([]))
+        g.inputs.append(root.cond)
     gb = onnxscript.GraphBuilder(g)
     try:
         y = root(gb.op, x)
@@ -150,10 +170,10 @@ def history(steps, named_first, root_own: bool = False):
         v = g.initializers.get(prefix + k)
         if v is not p:
             return False, f"initializer {prefix}{k} is not the Parameter object"
-    names = [o.name for nd in g for o in nd.outputs] + list(g.initializers) + ["x"]
+    names = [o.name for nd in ir.traversal.RecursiveGraphIterator(g) for o in nd.outputs] + list(g.initializers) + ["x"]
     if len(set(names)) != len(names):
         return False, "duplicate value names"
-    nn_ = [nd.name for nd in g]
+    nn_ = [nd.name for nd in ir.traversal.RecursiveGraphIterator(g)]
     if len(set(nn_)) != len(nn_):
         return False, "duplicate node names"
     for v in g.initializers.values():
@@ -176,27 +196,28 @@ def _pick(v, lo, hi):
     raise AssertionError("out of the stated range")
 
 
-def names_prop(steps: List[int], root_mode: int, root_own: bool) -> bool:
+def names_prop(steps: List[int], root_mode: int, root_own: bool, in_if: bool) -> bool:
     st = [_pick(s, 0, NOPS - 1) for s in steps]
     rm = _pick(root_mode, 0, len(ROOT_MODES) - 1)
     ro = True if root_own else False
+    ii = True if in_if else False
     from crosshair.tracers import NoTracing
     with NoTracing():
-        ok, _ = history(st, rm, ro)
+        ok, _ = history(st, rm, ro, ii)
     return ok is not False
 
 
-def explain(steps, root_mode, root_own=False):
-    return history(list(steps), root_mode, root_own)
+def explain(steps, root_mode, root_own=False, in_if=False):
+    return history(list(steps), root_mode, root_own, in_if)
 
 
 def _ob(n, fixed=()):
     pres = [f"len(steps) == {n}", f"all(0 <= s < {NOPS} for s in steps)", f"0 <= root_mode < {len(ROOT_MODES)}"] + [f"steps[{i}] == {k}" for i, k in enumerate(fixed)]
     return {
         "id": f"c18.names.n{n}" + "".join(f".{OPS[k]}" for k in fixed),
-        "sig": "steps: List[int], root_mode: int, root_own: bool",
+        "sig": "steps: List[int], root_mode: int, root_own: bool, in_if: bool",
         "pres": pres,
-        "call": "H.names_prop(steps, root_mode, root_own)",
+        "call": "H.names_prop(steps, root_mode, root_own, in_if)",
         "timeout": 300, "timeout_thorough": 1200,
         "tiers": ("quick", "thorough") if n <= 4 else ("thorough",),
         "functions": ["onnxscript.nn._module_list:ModuleList._register_child", "onnxscript.nn._module_list:ModuleList._set_name",
@@ -204,7 +225,7 @@ def _ob(n, fixed=()):
                       "onnxscript.nn._module:Module.__setattr__", "onnxscript.nn._module:Module.__call__",
                       "onnxscript.nn._parameter:Parameter._realize"],
         "bounds": f"construction histories of {n} steps over {NOPS} step kinds {OPS} (symbolic), root named at construction / at the end / not at all "
-                  "and owning a parameter called like the leaves' or not (symbolic); leaves have 1-2 parameters; histories whose step is not applicable are skipped",
+                  "and owning a parameter called like the leaves' or not, children called directly or inside an If branch built by a sub-builder (symbolic); leaves have 1-2 parameters; histories whose step is not applicable are skipped",
         "stubs": [],
     }
 
